@@ -261,3 +261,38 @@ func vfHitsOf(res []VectorResult) []vfHit {
 	}
 	return out
 }
+
+// vfThresholdRelation is a tolerance-free metamorphic check of "a positive threshold only
+// removes candidates": the result for threshold thr and limit k must be the unthresholded,
+// unlimited result restricted to reported scores <= thr, truncated to k. `all` is that
+// unthresholded result (ascending); scores are deterministic per id, so equality is exact.
+func vfThresholdRelation(all, got []vfHit, thr float32, k int) *vfViolation {
+	if thr <= 0 {
+		return nil
+	}
+	var exp []vfHit
+	scoreOf := map[uint32]float32{}
+	for _, h := range all {
+		if h.Score <= thr {
+			exp = append(exp, h)
+			scoreOf[h.ID] = h.Score
+		}
+	}
+	want := vfExpectedCount(k, len(exp))
+	if len(got) != want {
+		return vfFail("threshold %v, k=%d: %d results, but the unthresholded search reports %d candidates with score <= threshold (expected %d results)", thr, k, len(got), len(exp), want)
+	}
+	for i, h := range got {
+		s, ok := scoreOf[h.ID]
+		if !ok {
+			return vfFail("threshold %v: id %d (score %v) returned, but the unthresholded search does not report it with a score <= threshold", thr, h.ID, h.Score)
+		}
+		if math.Float32bits(s) != math.Float32bits(h.Score) {
+			return vfFail("threshold %v: id %d has score %v, but %v without the threshold", thr, h.ID, h.Score, s)
+		}
+		if math.Float32bits(exp[i].Score) != math.Float32bits(h.Score) {
+			return vfFail("threshold %v: rank %d has score %v, expected %v (the rank-%d score of the unthresholded search)", thr, i, h.Score, exp[i].Score, i)
+		}
+	}
+	return nil
+}
